@@ -200,7 +200,7 @@ def run_robust(core, cmd, cases, jobs=None, chunk_timeout=120, single_timeout=12
         omap, crashers = {}, []
         todo = list(chunk)
         while todo:
-            out, rc, err = _run_once(core, cmd, todo, chunk_timeout)
+            out, rc, err = _run_once(core, cmd, todo, max(chunk_timeout, 0.2 * len(todo)))
             ids = set()
             for l in out:
                 k = l.split(" ", 1)[0]
@@ -210,6 +210,18 @@ def run_robust(core, cmd, cases, jobs=None, chunk_timeout=120, single_timeout=12
             idx = next((i for i, c in enumerate(todo) if c.split(" ", 1)[0] not in ids), None)
             if idx is None:
                 break            # failure after the last case (e.g. leak report at exit): nothing to attribute
+            if rc == "timeout" and confirm:
+                # the output of a killed process may be incomplete (buffered): run every case without output on its own
+                for c in todo:
+                    k = c.split(" ", 1)[0]
+                    if k in omap:
+                        continue
+                    o1, rc1, err1 = _run_once(core, cmd, [c], single_timeout)
+                    if o1:
+                        omap[k] = o1[0]
+                    if rc1 != 0:
+                        crashers.append((c, rc1, err1))
+                break
             if not confirm:
                 o1, rc1, err1 = [], rc, err
             else:
